@@ -513,6 +513,9 @@ func gen(t *rapid.T) Case {
 	}
 	if rapid.IntRange(0, 9).Draw(t, "degenerate") == 0 {
 		c.Width = rapid.IntRange(-3, 0).Draw(t, "width<=0")
+	} else if rapid.SampledFrom([]int{0, 0, 0, 0, 0, 0, 0, 1}).Draw(t, "wide") == 1 {
+		// very wide panes (whatever block or table size an implementation uses internally lies below one of these)
+		c.Width = rapid.SampledFrom([]int{64, 100, 129, 200, 257, 300, 513, 700, 1025, 2000}).Draw(t, "widewidth")
 	} else {
 		c.Width = rapid.IntRange(1, 40).Draw(t, "width")
 	}
